@@ -154,20 +154,26 @@ class reusable_storage_mtsafe: public reusable_storage {
 public:
     void *alloc(std::size_t sz)  {
         void *p;
-        if (_busy.exchange(true, std::memory_order_relaxed)) {
+        reusable_storage_mtsafe *owner;
+        //acquire - we need to see everything what previous user of the block did with it
+        if (_busy.exchange(true, std::memory_order_acquire)) {
             p = ::operator new(sz+sizeof(reusable_storage_mtsafe **));
+            //block allocated on heap has no owner
+            owner = nullptr;
         } else {
             p = reusable_storage::alloc(sz+sizeof(reusable_storage_mtsafe **));
+            owner = this;
         }
         auto s = reinterpret_cast<reusable_storage_mtsafe **>(reinterpret_cast<char *>(p) + sz);
-        *s = this;
+        *s = owner;
         return p;
     }
     static void dealloc(void *ptr, std::size_t sz) {
         auto s = reinterpret_cast<reusable_storage_mtsafe **>(reinterpret_cast<char *>(ptr) + sz);
         auto me = *s;
-        if (ptr == me->_ptr) {
-            me->_busy.store(false, std::memory_order_relaxed);
+        if (me) {
+            //release - next user of the block must see the block is no longer used
+            me->_busy.store(false, std::memory_order_release);
         } else {
             ::operator delete(ptr);
         }
